@@ -7,6 +7,7 @@ import builtins
 import contextlib
 import copy
 import logging
+import os
 import warnings
 
 import mosaik
@@ -401,7 +402,8 @@ def build(world, ref, topo, eng, cfg):
             if dt == 'time-based':
                 trigger = False
             needed = (not trigger) and ('time_shifted' in kw or bool(kw.get('weak')))
-            lenient = ((not persistent and not trigger) and not cfg.get('strict_events', True)) or (initial is not SENT and not needed)
+            lenient = ((not persistent and not trigger) and not cfg.get('strict_events', True)) or \
+                      ((initial is not SENT and not needed) and not os.environ.get('VK_STRICT_INIT'))
             ref.add_conn(src, se, sa, dst, de, da, k=k, weak=e.get('weak', False), initial=initial,
                          persistent=persistent, trigger=trigger, lenient=lenient)
             if e.get('async'):
